@@ -6,6 +6,7 @@ a call log and returns a unique token. The monitor compares the call log with th
 
 from __future__ import annotations
 
+import copy
 import json
 import os
 
@@ -38,12 +39,15 @@ TYPES = [
     ("PositiveInt", [("3", "PositiveInt(3)")]),
     ("Optional[str]", [("abc", "abc")]),
     ("List[Optional[float]]", [("[1.5, null]", [1.5, None])]),
+    ("Union[List[int], List[str]]", [('["7", "abc"]', ["7", "abc"]), ("[1, 2]", [1, 2]), ('["x"]', ["x"])]),
+    ("Union[List[float], Tuple[str, ...]]", [('["1.5", "x"]', ("1.5", "x")), ("[2.5]", [2.5])]),
 ]
 DEFAULTS = {
     "int": ["1", "0", "-7"], "float": ["0.5", "0.0"], "str": ["'d'", "''", "'1'"], "bool": ["False", "True"], "Optional[int]": ["None", "3"],
     "List[int]": ["[]", "[9]"] if False else ["None"], "Dict[str, int]": ["None"], "Tuple[int, str]": ["(0, 'z')"], "Color": ["Color.green"],
     "Literal['a', 'b']": ["'a'"], "Union[int, str]": ["0", "'u'"], "Optional[List[str]]": ["None"], "Optional[Dict[str, int]]": ["None"],
     "PositiveInt": ["1"], "Optional[str]": ["None", "'s'"], "List[Optional[float]]": ["None"],
+    "Union[List[int], List[str]]": ["None"], "Union[List[float], Tuple[str, ...]]": ["None"],
 }
 NAMES = ["alpha", "beta", "gamma", "n", "lr", "name", "flag", "items", "config_path", "x1", "verbose", "k"]
 
@@ -254,14 +258,40 @@ def case(ctx, i, rng):
             # config for a plain function / function in a list goes after the subcommand name
             mcfg = dict(cfgm)
             argv_tail = list(sub) + [f"--config={json.dumps(mcfg)}"] + pos + opts
+        if kind in ("functions_list",) and cfgm and rng.random() < 0.5:
+            # the function's settings given at the parent level instead: a section named like the subcommand
+            cfg = {sub[0]: dict(cfgm)}
+            argv_tail = list(sub) + pos + opts
         if cfg:
-            if rng.random() < 0.5:
-                cpath = os.path.join(ctx.workdir, f"c12_{i % 20}.json")
-                with open(cpath, "w") as f:
-                    json.dump(cfg, f)
-                cfg_args = ["--config", cpath]
-            else:
-                cfg_args = [f"--config={json.dumps(cfg)}"]
+            parts = [cfg]
+            sect = cfg
+            for k in prefix:
+                sect = sect[k]
+            sect = sect.get(sub[0]) if sub else None
+            if isinstance(sect, dict) and len(sect) >= 2 and rng.random() < 0.5:
+                # two parent-level configs, each holding a part of the chosen subcommand's section
+                keys = list(sect)
+                rng.shuffle(keys)
+                a, b = copy.deepcopy(cfg), copy.deepcopy(cfg)
+                for which, drop in ((a, keys[len(keys) // 2 :]), (b, keys[: len(keys) // 2])):
+                    d = which
+                    for k in prefix:
+                        d = d[k]
+                    for k in drop:
+                        del d[sub[0]][k]
+                for k in [k for k in b if k not in (prefix[:1] or [sub[0]])]:
+                    del b[k]  # constructor values only in the first one
+                parts = [a, b]
+                ctx.count("st.two_parent_level_configs_for_one_subcommand")
+            cfg_args = []
+            for n_, part in enumerate(parts):
+                if rng.random() < 0.5:
+                    cpath = os.path.join(ctx.workdir, f"c12_{i % 20}_{n_}.json")
+                    with open(cpath, "w") as f:
+                        json.dump(part, f)
+                    cfg_args += ["--config", cpath]
+                else:
+                    cfg_args += [f"--config={json.dumps(part)}"]
         full = cfg_args + prefix + argv + argv_tail
         if decoys:
             ctx.count("st.config_with_settings_for_several_methods")
